@@ -4,7 +4,7 @@ P=$1; D=$2
 cd /repo || exit 2
 if ! git apply --check "$D" 2>/dev/null; then echo "PATCH DOES NOT APPLY: $D"; exit 3; fi
 git apply "$D"
-cd /verif && ./check "$P" --tier quick 2>&1 | grep -E "VIOLATION|KNOWN-FINDING|\[check" | head -5
+cd /verif && VERIF_EVIDENCE_DIR=/verif/.cache/mutant_evidence ./check "$P" --tier quick 2>&1 | grep -E "VIOLATION|KNOWN-FINDING|\[check" | head -5
 rc=$?
 git -C /repo checkout -- . 
 exit 0
